@@ -111,6 +111,48 @@ CHECKS["C10"] = dict(
          "by its C16 contract, binary.Write stub. Outside: readers returning (0,nil); unlisted chunk sizes.",
     technique="SSA symbolic execution + SMT (z3 QF_BV/UF) with I/O environment stubs")
 
+CHECKS["C01"] = dict(
+    category="proof",
+    text="Bounded proof of the bookkeeping around the two mathematical facts (polynomial division = C18, IPA completeness): "
+         "groupPolynomialsByEvaluationPoint, CreateMultiProof and CheckMultiProof executed from SSA with field elements as rational "
+         "functions, points as formal linear combinations and the transcript as an absorb log, for n<=3 openings over a 3-element index "
+         "set (every pattern incl. repeats, zero evaluations, shared pointers), NumCPU in {1,2,3,16}, both channel arrival orders: every "
+         "transcript item, D, E, the grouped sums and every argument handed to the IPA prover/verifier equal the reference written from "
+         "the specification; inputs and configuration unchanged.",
+    design_ref="DESIGN.md section 5 / C01",
+    note="Trusted: encoder, z3, summaries of Commit/MultiScalar (linear), BatchNormalize (C19), transcript (C14), IPA (arguments recorded), "
+         "weight tables by definition (C18); denominators t - z != 0 (t is a hash output). Outside: n>3, other index sets (seeded), IPA "
+         "completeness and (h-g)(t)=g_2(t) composed on paper; real SHA-256/curve arithmetic only in native replays.",
+    technique="SSA symbolic execution into rational-function / linear-combination terms; identities decided by z3 (polynomial normal form, NRA fallback)")
+CHECKS["C03"] = dict(
+    category="proof",
+    text="Same machinery as C01 focused on determinism: for n in {2,3} openings the prover's transcript, D, E and IPA arguments equal "
+         "the sequential reference prover's for every NumCPU in {1,2,3,4,16} (thorough 1..16) and channel arrival order fifo/lifo, hence "
+         "are a function of (label, commitments as group elements, polynomials, indices) only.",
+    design_ref="DESIGN.md section 5 / C03 (O1)",
+    note="As C01. Outside: the 8 IPA rounds (O2 not built), serialisation (C10), hashing (C14), cross-implementation byte equality on "
+         "concrete inputs (repository vectors / native replay).",
+    technique="SSA symbolic execution + z3 identity checking, configuration enumeration (NumCPU, arrival order)")
+CHECKS["C13"] = dict(
+    category="proof",
+    text="Write monitor (frame obligations, one solver query per protected cell) on the multiproof API harnesses: polynomials, indices, "
+         "claimed values, commitments, proof object, IPAConfig (SRS, Q, weight tables) unchanged by CreateMultiProof / CheckMultiProof / "
+         "grouping for n<=3 (shared-index batches included), and caller label/message buffers with spare capacity unchanged by the "
+         "transcript; decoders, MSM scalars and group-operation operands carry the same obligations in C16, C05, C09, C08.",
+    design_ref="DESIGN.md section 2.1 (write monitor), 5 / C13",
+    note="Trusted: encoder, z3, stubs pure as declared. History independence is the inductive consequence of the frame condition.",
+    technique="SSA symbolic execution with snapshot/compare frame obligations decided by z3")
+CHECKS["C08"] = dict(
+    category="proof",
+    text="banderwagon.Element Add/Sub/Double/Neg/Set/SetIdentity/ScalarMul/AddMixed executed from SSA in the group domain for every "
+         "aliasing pattern of receiver and operands over a 3-element pool (165 combinations): receiver = operation on the operands' "
+         "previous values, other elements and package-level Generator/Identity unchanged, ScalarMul hands the regular value UNMONT(s) to "
+         "the dependency for every scalar.",
+    design_ref="DESIGN.md section 5 / C08 (O1)",
+    note="Trusted: encoder, z3, gnark point formulas and GLV scalar multiplication summarised by the group law (dependency code, outside "
+         "the claim), MONT/UNMONT bijection, math/big stub. The ring laws (s+t)P etc. are consequences.",
+    technique="SSA symbolic execution in a formal-linear-combination group domain + SMT (z3 LIA/UF)")
+
 NOT_YET = {}
 
 ALL = ["C%02d" % i for i in range(1, 21)]
